@@ -9,6 +9,7 @@
 From Coq Require Import List ZArith NArith Bool.
 From PC Require Import Base.Outcome Base.Py Base.Mat Gen.Transforms Model.Transforms Model.Strips Model.Triangulate
   Model.IndexedList Model.Traverse Model.PurityQueries Proofs.PurityQueries.
+From PC Require Model.PrimCtor Model.PrimIter.
 From PC Require Import Model.Purity Proofs.Purity.     (* last: its [run], [op] are the ones meant below *)
 Import ListNotations.
 
@@ -147,19 +148,24 @@ Example C17_observable_write_refutes :
 Proof. vm_compute. discriminate. Qed.
 
 (* ================================================================================================
-   CONCRETE queries: for Polylist.triangleset() with its cache (the computation is the C11 family's
-   Model.Triangulate.triangleset), CImage data with its cache, getInputList(), library look-ups
-   (L[key], L.get, key in L on the C14 family's Model.IndexedList) and Scene.objects (the C12
-   family's Model.Traverse.scene_objects) the footprint discipline is PROVED, so the history
-   theorems hold for them without any hypothesis.  What remains measured for these kinds is that the
-   Python code does what these Gallina models say (the correspondences of C11/C12/C14 for the
-   computations, and the write-set measurement of Check/C17.v for the absence of other writes). *)
+   CONCRETE queries.  For the query kinds below the footprint discipline is PROVED on concrete
+   Gallina models, so the history theorems hold for them without any hypothesis:
+     Polylist.triangleset() with its cache (C11 family's Model.Triangulate.triangleset), CImage data
+     with its cache, getInputList(), library look-ups L[key] / L.get / key in L (C14 family's
+     Model.IndexedList), Scene.objects and Node.objects with a matrix (C12 family's Model.Traverse),
+     binding as a pure function producing NEW arrays at fresh locations, bound
+     shapes()/triangles()/polygons()/lines(), prim[i] and iteration of the unbound primitive (C10
+     family's Model.PrimIter), Polygon.triangles() (Model.Triangulate.poly_triangles), str()/repr().
+   What remains measured for these kinds is that the Python code does what these Gallina models say
+   (the correspondences of C10/C11/C12/C14 for the computations, and the write-set measurement of
+   Check/C17.v for the absence of other writes). *)
 
 (* writes stay inside the declared hidden fields *)
 Theorem C17_concrete_writes_declared : forall R (O : ops R) q (s : cdoc R),
   cobs (fst (cexec O q s)) = cobs s /\
   (~ In FTriCache (cdeclared q) -> c_tri (fst (cexec O q s)) = c_tri s) /\
-  (~ In FImgCache (cdeclared q) -> c_img (fst (cexec O q s)) = c_img s).
+  (~ In FImgCache (cdeclared q) -> c_img (fst (cexec O q s)) = c_img s) /\
+  (~ In FFresh (cdeclared q) -> f_store (fst (cexec O q s)) = f_store s /\ f_next (fst (cexec O q s)) = f_next s).
 Proof. intros R O q s. split; [apply c_frame | apply c_writes_declared]. Qed.
 Print Assumptions C17_concrete_writes_declared.
 
@@ -174,20 +180,21 @@ Print Assumptions C17_concrete_results_observable.
    every saved output are those of the history with the queries erased - no hypothesis *)
 Theorem C17_concrete_history : forall R (O : ops R) ops (s : cdoc R),
   cobs (fst (srun _ _ _ _ (cexec O) csave s ops)) =
-  cobs (fst (srun _ _ _ _ (cexec O) csave s (saves_only_s cquery ops))) /\
-  snd (srun _ _ _ _ (cexec O) csave s ops) = snd (srun _ _ _ _ (cexec O) csave s (saves_only_s cquery ops)).
+  cobs (fst (srun _ _ _ _ (cexec O) csave s (saves_only_s (cquery R) ops))) /\
+  snd (srun _ _ _ _ (cexec O) csave s ops) = snd (srun _ _ _ _ (cexec O) csave s (saves_only_s (cquery R) ops)).
 Proof.
   intros R O ops s.
   apply (s_history_gen _ _ _ _ _ cobs (cexec O) csave (c_frame R O) (c_save_obs R) ops s s eq_refl).
 Qed.
 Print Assumptions C17_concrete_history.
 
-(* from a freshly loaded/constructed document (nothing cached), after any history: a repeated
-   query returns the same result, and every query answers what the never-queried twin answers *)
+(* from a freshly loaded/constructed document (nothing cached, nothing allocated), after any
+   history: a repeated query returns the same result, and every query answers what the
+   never-queried twin answers *)
 Theorem C17_concrete_repeatable : forall R (O : ops R) ops q (s : cdoc R), cfresh s ->
   let s1 := fst (srun _ _ _ _ (cexec O) csave s ops) in
   snd (cexec O q (fst (cexec O q s1))) = snd (cexec O q s1) /\
-  snd (cexec O q s1) = snd (cexec O q (fst (srun _ _ _ _ (cexec O) csave s (saves_only_s cquery ops)))).
+  snd (cexec O q s1) = snd (cexec O q (fst (srun _ _ _ _ (cexec O) csave s (saves_only_s (cquery R) ops)))).
 Proof.
   intros R O ops q s Hf s1. pose proof (c_fresh_coherent R s Hf) as Hc. split.
   - apply (s_repeatable _ _ _ _ cobs (cexec O) ccoherent (c_frame R O) (c_result R O) (c_exec_coherent R O)).
@@ -203,18 +210,68 @@ Theorem C17_concrete_lookup_pure : forall R (O : ops R) l (s : cdoc R),
 Proof. intros. split; reflexivity. Qed.
 Print Assumptions C17_concrete_lookup_pure.
 
+(* bound primitives own their arrays, concretely: binding stores the transformed vertex and normal
+   arrays at two locations that did not exist before; writing ANY content into either leaves the
+   unbound document (sources of the primitive included), its caches' coherence and the result of
+   EVERY query exactly as they were *)
+Theorem C17_concrete_bound_arrays_owned : forall R (O : ops R) m mm (s : cdoc R), cwf s ->
+  let s1 := fst (cexec O (QBind m mm) s) in
+  let bp := PrimIter.bind (d_prim s) m mm in
+  In (f_next s, rows_of (PrimIter.ip_vertex bp)) (f_store s1) /\
+  In ((f_next s + 1)%N, rows_of (PrimIter.ip_normal bp)) (f_store s1) /\
+  (forall l, In l (bind_locs s) ->
+     (forall v0, ~ In (l, v0) (f_store s)) /\
+     forall v, cobs (cwrite l v s1) = cobs s /\
+               (ccoherent s -> ccoherent (cwrite l v s1)) /\
+               forall q, snd (cexec O q (cwrite l v s1)) = snd (cexec O q s1)).
+Proof.
+  intros R O m mm s Hw s1 bp.
+  destruct (bind_allocates R O m mm s) as [A B].
+  split; [exact A | split; [exact B|]].
+  intros l Hl. split; [apply (bind_locs_new R s l Hw Hl)|].
+  intros v. split; [|split].
+  - unfold s1. rewrite (c_write_obs R). apply c_frame.
+  - intro Hc. apply c_write_coherent. apply c_exec_coherent. exact Hc.
+  - intro q. apply c_write_result.
+Qed.
+Print Assumptions C17_concrete_bound_arrays_owned.
+
+(* allocated locations stay below the allocator along every history *)
+Theorem C17_concrete_allocation_wf : forall R (O : ops R) ops (s : cdoc R), cwf s ->
+  cwf (fst (srun _ _ _ _ (cexec O) csave s ops)).
+Proof.
+  intros R O ops s Hw.
+  apply (s_run_coherent _ _ _ _ (cexec O) csave cwf (c_exec_wf R O) (c_save_wf R)). exact Hw.
+Qed.
+Print Assumptions C17_concrete_allocation_wf.
+
 (* Non-vacuity: a polylist (a quad and a triangle, two inputs per corner), a library of three
-   objects two of which share an id, a scene with a translated geometry instance, an image. *)
+   objects two of which share an id, a scene with a translated geometry instance, an image, and a
+   primitive with positions, normals and two texcoord sets (a triangle, a void and a quad). *)
+Definition ex_v := PrimCtor.Src [[0;0;0];[1;0;0];[0;1;0];[0;0;1]]%Z 3.
+Definition ex_n := PrimCtor.Src [[0;0;1];[0;1;0]]%Z 3.
+Definition ex_t := PrimCtor.Src [[0;0];[1;0];[0;1]]%Z 2.
+Definition ex_prim : PrimCtor.prim :=
+  match PrimCtor.construct PrimCtor.KPolylist
+          [PrimCtor.Inp 0 PrimCtor.VERTEX ex_v; PrimCtor.Inp 1 PrimCtor.NORMAL ex_n;
+           PrimCtor.Inp 0 PrimCtor.TEXCOORD ex_t; PrimCtor.Inp 2 PrimCtor.TEXCOORD ex_t] (Some 7%N)
+          (PrimCtor.SPolylist [0;0;2; 1;1;0; 2;0;1;   2;1;1; 1;0;2; 0;1;0; 2;0;0]%N [3; 0; 4]%nat) with
+  | Ok p => p
+  | Raise _ => PrimCtor.Prim PrimCtor.KTri 1 0 None None [] [] [] [] None
+  end.
+Definition ex_M : list (list Z) := [[0;-1;0;5];[1;0;0;0];[0;0;1;-2]]%Z.
+
 Definition ex_doc : cdoc Z :=
   CDoc Z [4; 3]%nat [[0;0]; [1;0]; [2;1]; [3;1]; [0;2]; [2;2]; [3;0]]%N
        [(1, [(0, 1, 50, None)]); (2, [(1, 2, 51, None)]); (3, [(1, 3, 52, Some 0); (1, 3, 53, Some 1)])]%N
        (of_list [(1, 7); (2, 8); (3, 7)]%N)
        [SNode (translate_matrix zops 1%Z 2%Z 3%Z) [SGeom 7 [(1, 10)]%N; SCam 4]]
-       99%N [] None None.
+       99%N [] ex_prim None None [] 0%N.
 
 Example C17_concrete_nonvacuous :
   let ops := [SQ QTriangleset; SQ (QLookup (LGet 7)); SSave; SQ QImageData; SQ QTriangleset;
-              SQ (QSceneObjects 0); SQ QInputList; SSave] in
+              SQ (QSceneObjects 0); SQ QInputList; SQ (QBind ex_M [(7, 9)]%N); SQ (QShapes ex_M []);
+              SQ QUnboundIter; SQ QPrint; SSave] in
   let s1 := fst (srun _ _ _ _ (cexec zops) csave ex_doc ops) in
   snd (cexec zops QTriangleset ex_doc) =
     RTri Z (Ok [([0;0],[1;0],[2;1]); ([0;0],[2;1],[3;1]); ([0;2],[2;2],[3;0])]%N) /\
@@ -224,6 +281,15 @@ Example C17_concrete_nonvacuous :
   snd (cexec zops (QLookup (LItem (KId 9))) s1) = RLookup Z (Raise PyKeyError) /\
   snd (cexec zops QInputList s1) = RInputs Z [(0, 1, 50, None); (1, 2, 51, None); (1, 3, 52, Some 0); (1, 3, 53, Some 1)]%N /\
   length (match snd (cexec zops (QSceneObjects 0) s1) with RBound _ l => l | _ => [] end) = 1%nat /\
+  length (match snd (cexec zops (QNodeObjects 2 None 0) s1) with RBound _ l => l | _ => [] end) = 1%nat /\
+  snd (cexec zops (QPolygonTriangles 0) s1) = RTri Z (Ok [([0;0],[1;0],[2;1]); ([0;0],[2;1],[3;1])]%N) /\
+  snd (cexec zops QPrint s1) = RStr Z 3 2 3 /\
+  map fst (f_store s1) = [2; 3; 0; 1]%N /\ f_next s1 = 4%N /\
+  nth 2 (f_store s1) (0%N, []) = (0%N, [[5;0;-2];[5;1;-2];[4;0;-2];[5;0;-1]]%Z) /\
+  (match snd (cexec zops (QShapes ex_M []) s1) with
+   | RItems _ (Ok l) => map PrimIter.it_vertices l | _ => [] end)
+    = [[[5;0;-2];[5;1;-2];[4;0;-2]]; []; [[4;0;-2];[5;1;-2];[5;0;-2];[4;0;-2]]]%Z /\
+  cobs (cwrite 0%N [[9;9;9]]%Z s1) = cobs s1 /\
   snd (srun _ _ _ _ (cexec zops) csave ex_doc ops) = [[4;3;0;0;1;0;2;1;3;1;0;2;2;2;3;0;7;8;7]; [4;3;0;0;1;0;2;1;3;1;0;2;2;2;3;0;7;8;7]]%N /\
   cfresh ex_doc.
 Proof. vm_compute. repeat split; reflexivity. Qed.
